@@ -302,3 +302,41 @@ func VH_C13_RetargetTotal() {
 	vh.Assert(d != (Work{}), "difficulty became zero")
 	vh.Reach("end")
 }
+
+// FinalCut / v2 retargeting never divides by zero and never underflows, for
+// every Oak time (the only symbolic input here; proof-of-work state, block
+// timestamp and height are concrete, so the 256-bit products stay linear)
+func VH_C13_RetargetNoDivZero() {
+	n := vhNetwork("net")
+	n.BlockInterval = 10 * time.Minute
+	n.HardforkOak.GenesisTimestamp = time.Unix(1433600000, 0)
+	var s State
+	s.Network = n
+	s.Index.Height = 600000
+	s.Difficulty.n[26] = 1 // 2^40
+	s.OakWork.n[25] = 4    // 2^50
+	s.TotalWork.n[20] = 1
+	s.OakTime = time.Duration(vh.I64("oaktime"))
+	vh.Assume(vh.And(s.OakTime > -(1<<50), s.OakTime < 1<<50))
+	drift := []int64{-100000, -600, 0, 600, 100000}[vh.Choice("drift", 5)]
+	ts := time.Unix(1433600000+600*600001+drift, 0)
+	era := vh.Choice("era", 2)
+	var d Work
+	msg := ""
+	if era == 0 {
+		msg = vh.PanicMsg(func() { d = adjustDifficultyFinalCut(*(&s), ts) })
+	} else {
+		msg = vh.PanicMsg(func() { d = adjustDifficultyV2(*(&s), ts) })
+	}
+	vh.Assert(msg != "Work.div64: division by zero", "retargeting divides by zero")
+	vh.Assert(msg != "Work.sub: underflow", "retargeting underflows")
+	if msg == "" {
+		vh.Assert(d != (Work{}), "difficulty became zero")
+		maxAdjust := s.Difficulty.div64(250)
+		if era == 0 {
+			maxAdjust = maxAdjust.max(oneWork)
+		}
+		vh.Assert(vh.And(d.Cmp(s.Difficulty.add(maxAdjust)) <= 0, d.Cmp(s.Difficulty.sub(maxAdjust)) >= 0), "difficulty left the 0.4% clamp")
+		vh.Reach("end")
+	}
+}
